@@ -129,6 +129,19 @@ IsPrevMultiple(a, b, res, k) == LET d == ZSub(a, res) IN
     ZEq(res, ZMul(k, b)) /\ (d.s = 0 \/ (d.s = b.s /\ Cmp(d.d, b.d) < 0))
 AbsSubR(a, b) == IF ZCmp(a, b) > 0 THEN ZSub(a, b) ELSE ZZero
 
+(* C20: multiply-accumulate work W (a magnitude) for balanced n x n and unbalanced n x m products.
+   doubling: W(2n) <= 3 W(n) + W(n)/6 ("at most about three, not four");  quarter: 4 W(4096) < 4096^2;
+   unbalanced: W(n, m) <= n m. *)
+CostDoublingOK(w1, w2) == Cmp(MulSmall(w2, 6), MulSmall(w1, 19)) <= 0
+CostQuarterOK(n, w)    == Cmp(MulSmall(w, 4), Mul(OfInt(n), OfInt(n))) < 0
+CostUnbalancedOK(n, m, w) == Cmp(w, Mul(OfInt(n), OfInt(m))) <= 0
+CostTableOK(bal, unbal) ==
+    /\ \A k \in 1..(Len(bal) - 1) : bal[k + 1].n = 2 * bal[k].n /\ CostDoublingOK(bal[k].w.m, bal[k + 1].w.m)
+    /\ \A k \in 1..Len(bal) : bal[k].n = 4096 => CostQuarterOK(4096, bal[k].w.m)
+    /\ \E k \in 1..Len(bal) : bal[k].n = 4096
+    /\ bal[1].n = 256 /\ bal[Len(bal)].n = 16384
+    /\ \A k \in 1..Len(unbal) : CostUnbalancedOK(unbal[k].n, unbal[k].m, unbal[k].w.m)
+
 (* radix ranges *)
 FailsTextRadix(radix)  == radix < 2 \/ radix > 36
 FailsDigitRadix(radix) == radix < 2 \/ radix > 256
